@@ -39,17 +39,8 @@ def gen(module, constants, invariants, label, chk, timeout=1500, xmx="10g", simu
           "INVARIANTS " + " ".join(invariants) + "\n"
     r = vlib.tlc(module, cfg=write_cfg("%s_%s.cfg" % (module, label), cfg), timeout=timeout, xmx=xmx, simulate=simulate, depth=depth)
     chk.add_tlc("%s %s%s" % (module, label, " (simulation)" if simulate else ""), r, constants)
-    out = r.printed("GEN")
-    if simulate:
-        # random behaviours revisit states: keep each scenario once
-        seen = set()
-        uniq = []
-        for s in out:
-            k = json.dumps(s, sort_keys=True)
-            if k not in seen:
-                seen.add(k)
-                uniq.append(s)
-        out = uniq
+    # random behaviours revisit states: keep each scenario once (dropped on the raw text, before parsing)
+    out = r.printed_unique("GEN") if simulate else r.printed("GEN")
     return out
 
 
